@@ -61,6 +61,19 @@ func ruleFilepath(prefix string) func(p *Prog, r *Result) {
 				}
 				return true, ""
 			})
+		pf.all("every supported extension is probed: a candidate is passed over only because it does not exist", selectPaths(pf.paths, func(pa *Path) bool { return pa.End == "iter" }),
+			"the loop continues only after os.Stat(<path>.<ext>) reported 'not exist'", func(pa *Path) (bool, string) {
+				for _, e := range pa.Effects {
+					if e.Callee == "os.Stat" && len(e.Args) == 1 && cand(e.Args[0]) {
+						ne := guardPol(pa, "truth", mCall("errors.Is", mResOf(1, mCall("os.Stat", mIs(e.Args[0]))), func(x *T) bool { return x.Op == "global" && x.Name == "ErrNotExist" }), nil)
+						if ne == 1 {
+							return true, ""
+						}
+						return false, "an existing candidate is passed over"
+					}
+				}
+				return false, "an extension of the format table is skipped without looking for the file: a layer stored under that extension is never found"
+			})
 		// --- FileMatch
 		fm := newPSRule(p, r, prefix+".filematch", "bkl.FileMatch", PSOpts{NoInline: map[string]bool{"bkl.ext": true, "bkl.findFile": true}})
 		extT := mCall("bkl.ext", pathP)
